@@ -29,3 +29,5 @@ Definition mm_obs (c : mcase) : list qset := map (absl mem mem_holds (m_univ c))
 Definition m_case (c : mcase) : case := {| c_init := m_init c; c_ops := map to_aop (m_ops c) |}.
 Definition mspec_ok (c : mcase) (obs : list qset) : bool := spec_ok (m_case c) obs.
 
+
+Definition mscope_kf (c : mcase) : N := scope_kf (m_case c).
